@@ -471,7 +471,7 @@ func TestVerif_C36(t *testing.T) {
 	}
 	rec.Set("open_findings_excluded", open)
 	keep := os.Getenv("C36_KEEP") != ""
-	vh.Check(t, "sqldump", 16, 20, func(rt *rapid.T) {
+	vh.Check(t, "sqldump", 16, 12, func(rt *rapid.T) {
 		before := gate.excluded
 		db := c36GenDB(rt, gate)
 		v := c36DrawVariant(rt)
@@ -616,7 +616,7 @@ func TestVerif_C36_formats(t *testing.T) {
 	e := c36Setup(t)
 	defer os.RemoveAll(e.root)
 	keep := os.Getenv("C36_KEEP") != ""
-	vh.Check(t, "formats", 9, 12, func(rt *rapid.T) {
+	vh.Check(t, "formats", 9, 7, func(rt *rapid.T) {
 		format := []string{"csv", "json", "parquet"}[rapid.IntRange(0, 2).Draw(rt, "format")]
 		gate := c36NewGate()
 		gate.format = format
